@@ -97,6 +97,18 @@ void transpose_dm(const dmat *A, dmat *At)
     for (int i = 0; i < A->m; i++) for (int j = 0; j < A->n; j++) { DM(At, j, i) = DM(A, i, j); DZ(At, j, i) = DZ(A, i, j); }
 }
 
+void ref_etree(const dmat *F, const int *perm_c, int n, int sym, int *parent)
+{
+    unsigned char B[NMAX][NMAX]; memset(B, 0, sizeof B);
+    if (!sym) { for (int r = 0; r < F->m; r++) for (int a = 0; a < n; a++) if (DZ(F, r, a)) for (int b = 0; b < n; b++) if (DZ(F, r, b)) B[perm_c[a]][perm_c[b]] = 1; }
+    else { for (int a = 0; a < n; a++) for (int b = 0; b < n; b++) if (DZ(F, a, b) || DZ(F, b, a)) B[perm_c[a]][perm_c[b]] = 1; }
+    for (int k = 0; k < n; k++) {
+        int p = n; for (int i = k + 1; i < n; i++) if (B[i][k]) { p = i; break; }
+        parent[k] = p;
+        if (p < n) for (int i = k + 1; i < n; i++) if (B[i][k]) { B[i][p] = 1; B[p][i] = 1; }
+    }
+}
+
 /* ------------------------------------------------------------------ scaling
  * A_in/B_in: caller-orientation values before the call.  Checks equed, R, C, the values of A and B after the call. */
 static int one_of_assoc(const vf_type *T, xc a, xr r, xr c, int user, int usec, xc got)
